@@ -43,6 +43,8 @@ def rule_CLEN(ctx, which=None):
                              'AuxLatitude::Clenshaw, DST::eval and both DST::integral return the defining trigonometric sum '
                              '(polynomial identity in sin x, cos x modulo sin^2 + cos^2 = 1)' % NMAX)
     ncase = 0
+    nmax = 12 if getattr(ctx, 'tier', 'quick') == 'thorough' else NMAX
+    n2max = 8 if getattr(ctx, 'tier', 'quick') == 'thorough' else 6
 
     def run(f, preset):
         try:
@@ -68,8 +70,8 @@ def rule_CLEN(ctx, which=None):
     if 'sincos' in specs:
         f = _fn(ctx, NS + 'Geodesic::SinCosSeries', 5)
         s, c = Poly.sym('sinx'), Poly.sym('cosx')
-        m = _multiples(s, c, 2 * NMAX + 2)
-        for n in range(0, NMAX + 1):
+        m = _multiples(s, c, 2 * nmax + 2)
+        for n in range(0, nmax + 1):
             for sinp in (1, 0):
                 got = run(f, {par(f, 'sinp'): Poly.const(sinp), par(f, 'n'): Poly.const(n)})
                 exp = Poly()
@@ -83,8 +85,8 @@ def rule_CLEN(ctx, which=None):
     if 'aux' in specs:
         f = _fn(ctx, NS + 'AuxLatitude::Clenshaw', 5)
         s, c = Poly.sym('szeta'), Poly.sym('czeta')
-        m = _multiples(s, c, 2 * NMAX + 2)
-        for K in range(0, NMAX + 1):
+        m = _multiples(s, c, 2 * nmax + 2)
+        for K in range(0, nmax + 1):
             for sinp in (1, 0):
                 got = run(f, {par(f, 'sinp'): Poly.const(sinp), par(f, 'K'): Poly.const(K)})
                 exp = Poly()
@@ -95,8 +97,8 @@ def rule_CLEN(ctx, which=None):
         fe, fi, fd = _fn(ctx, NS + 'DST::eval', 4), _fn(ctx, NS + 'DST::integral', 4), _fn(ctx, NS + 'DST::integral', 6)
         s, c = Poly.sym('sinx'), Poly.sym('cosx')
         sy, cy = Poly.sym('siny'), Poly.sym('cosy')
-        mx, my = _multiples(s, c, 2 * NMAX + 2), _multiples(sy, cy, 2 * NMAX + 2)
-        for N in range(0, NMAX + 1):
+        mx, my = _multiples(s, c, 2 * nmax + 2), _multiples(sy, cy, 2 * nmax + 2)
+        for N in range(0, nmax + 1):
             got = run(fe, {par(fe, 'N'): Poly.const(N)})
             exp = Poly()
             for i in range(N):
@@ -108,7 +110,7 @@ def rule_CLEN(ctx, which=None):
                 ex = ex - (Poly.sym('F[%d]' % i) * mx[2 * i + 1][1]).scale(Fraction(1, 2 * i + 1))
                 ey = ey - (Poly.sym('F[%d]' % i) * my[2 * i + 1][1]).scale(Fraction(1, 2 * i + 1))
             check(fi, got, ex, [('sinx', 'cosx')], 'integral N=%d' % N)
-            if N <= 6:          # the two-angle form grows fast
+            if N <= n2max:      # the two-angle form grows fast
                 got = run(fd, {par(fd, 'N'): Poly.const(N)})
                 check(fd, got, ey - ex, [('sinx', 'cosx'), ('siny', 'cosy')], 'definite integral N=%d' % N)
     res.analysed.update({'cases': ncase})
